@@ -281,6 +281,23 @@ func (vc *FuncVC) execCall(in ssa.Instruction, c *ssa.CallCommon, res ssa.Value)
 		argVals = append(argVals, av)
 		args = append(args, vc.termOf(av))
 	}
+	for i, a := range c.Args {
+		// whatever a callee is handed may be retained and handed back later
+		if !(argVals[i].Loc != nil && argVals[i].T.S == "") {
+			vc.publish(args[i], a.Type())
+		}
+		// the elements of a literal variadic list are handed over too
+		if arr, n, elem := varargsArray(a); arr != nil && !isStruct(elem) {
+			ref := vc.val(arr).T
+			es := vc.sortOf(elem)
+			for j := 0; j < n; j++ {
+				vc.publish(Select(Select(vc.cur.get(vc.elemComp(elem)), ref, arraySort(SInt, es)), IntLit(int64(j)), es), elem)
+			}
+		}
+	}
+	if recv != nil {
+		vc.publish(*recv, c.Value.Type())
+	}
 	if kind == "dynamic" {
 		fv := vc.term(c.Value)
 		vc.oblige("safe.nil", "safe.nil.call", vc.g(), Not(Eq(fv, IntLit(0))), "call of nil func value")
@@ -392,6 +409,10 @@ func (vc *FuncVC) havocOpaque(tag string) {
 	// objects allocated here whose address has not escaped yet are out of the callee's reach
 	if vc.curInstr != nil {
 		for _, a := range vc.unescapedAllocs(vc.curInstr) {
+			if _, isPtr := a.Type().Underlying().(*types.Pointer); !isPtr {
+				vc.preserveContainer(pre, a)
+				continue
+			}
 			elem := a.Type().Underlying().(*types.Pointer).Elem()
 			ref := vc.vals[a].T
 			var locs []*Loc
@@ -514,10 +535,50 @@ func (vc *FuncVC) resultVal(prefix string, sig *types.Signature) *Val {
 		return v
 	}
 	v := vc.freshVal(prefix, rs)
+	for i, x := range v.Tuple {
+		vc.assumeAllocatedOrFresh(x.T, rs.At(i).Type())
+	}
 	return v
 }
 
-func (vc *FuncVC) assumeAllocatedOrFresh(t Term, typ types.Type) {}
+func (vc *FuncVC) assumeAllocatedOrFresh(t Term, typ types.Type) {
+	// a callee cannot return memory this function allocated and has not handed out
+	var ref Term
+	switch typ.Underlying().(type) {
+	case *types.Pointer, *types.Map:
+		ref = t
+	case *types.Slice:
+		ref = T(app("s_arr", t), SInt)
+		vc.assume(Or(Eq(ref, IntLit(0)), Eq(vc.baseOf(ref), ref)))
+	default:
+		return
+	}
+	// dynamic rule: the result is nil, an object some other code already knew, or one the callee allocated
+	{
+		al, es := vc.cur.get("alloc"), vc.cur.get("escaped")
+		b := vc.baseOf(ref)
+		vc.assume(Or(Eq(ref, IntLit(0)), Select(es, b, SBool), Not(Select(al, b, SBool))))
+	}
+	if vc.curInstr == nil {
+		return
+	}
+	for _, a := range vc.unescapedAllocs(vc.curInstr) {
+		av := vc.vals[a]
+		if av == nil || av.T.S == "" {
+			continue
+		}
+		var aref Term
+		switch a.Type().Underlying().(type) {
+		case *types.Slice:
+			aref = T(app("s_arr", av.T), SInt)
+		case *types.Pointer, *types.Map:
+			aref = av.T
+		default:
+			continue
+		}
+		vc.assume(Or(Eq(ref, IntLit(0)), Not(Eq(ref, aref))))
+	}
+}
 
 // applyContract uses a callee's contract at a call site: assert requires,
 // havoc its frame, assume ensures.
@@ -564,8 +625,13 @@ func (vc *FuncVC) applyContract(con *Contract, name string, fn *ssa.Function, si
 	}
 	short := vc.P.shortName(name)
 	for n, r := range con.Requires {
+		vc.goalSkolemised = false
 		f := vc.evalGoal(env, r)
-		vc.oblige("pre", fmt.Sprintf("pre.%s.%s", short, clauseName(r, n)), vc.g(), f, "precondition of "+short+": "+r.Src)
+		h := f
+		if vc.goalSkolemised {
+			h = vc.evalBool(env, r)
+		}
+		vc.obligeWith("pre", fmt.Sprintf("pre.%s.%s", short, clauseName(r, n)), vc.g(), f, h, "precondition of "+short+": "+r.Src)
 	}
 	// result
 	var result *Val
@@ -877,6 +943,10 @@ func (vc *FuncVC) execAppend(c *ssa.CallCommon, res ssa.Value) {
 	vc.assume(Implies(Not(inPlace), And(Cmp("<", IntLit(0), nArr), Not(Select(a, nArr, SBool)), Eq(vc.baseOf(nArr), nArr))))
 	vc.assume(Implies(inPlace, Eq(nArr, sArr)))
 	vc.cur = vc.cur.set("alloc", Store(a, nArr, tTrue))
+	{
+		e := vc.named("esc", vc.cur.get("escaped"))
+		vc.cur = vc.cur.set("escaped", Store(e, nArr, Ite(inPlace, Select(e, nArr, SBool), tFalse)))
+	}
 	nCap := vc.fresh("app.cap", SInt)
 	vc.assume(Implies(inPlace, Eq(nCap, sCap)))
 	vc.assume(Implies(Not(inPlace), And(Cmp("<=", newLen, nCap), Cmp("<=", nCap, T("72057594037927936", SInt)))))
@@ -1067,7 +1137,7 @@ func (vc *FuncVC) execGo(x *ssa.Go) {
 
 // frameRelevant: components subject to the frame check (caller-visible memory).
 func (vc *FuncVC) frameRelevant(comp string) bool {
-	if strings.Contains(comp, "#L") || strings.HasPrefix(comp, "IT!") || strings.HasPrefix(comp, "LG!") || comp == "clock" || comp == "alloc" {
+	if strings.Contains(comp, "#L") || strings.HasPrefix(comp, "IT!") || strings.HasPrefix(comp, "LG!") || comp == "clock" || comp == "alloc" || comp == "escaped" {
 		return false
 	}
 	return true
@@ -1142,7 +1212,8 @@ func (vc *FuncVC) frameFormula(comp string, st *State) Term {
 	}
 	b := vc.declFun("baseOf", []string{SInt}, SInt)
 	vc.seq++
-	return T(fmt.Sprintf("(forall ((r Int)) (! (=> (and (select %s (%s r)) %s) (= (select %s r) (select %s r))) :pattern ((select %s r))))", a0.S, b, strings.Join(append(exc, "true"), " "), now.S, before.S, now.S), SBool)
+	// (address 0 is not an object: a nil slice has no elements)
+	return T(fmt.Sprintf("(forall ((r Int)) (! (=> (and (not (= r 0)) (select %s (%s r)) %s) (= (select %s r) (select %s r))) :pattern ((select %s r))))", a0.S, b, strings.Join(append(exc, "true"), " "), now.S, before.S, now.S), SBool)
 }
 
 // checkFrame: at a return, every component outside the assigns clause is unchanged
@@ -1190,8 +1261,9 @@ func (vc *FuncVC) prescanInstr(li *loopInfo, in ssa.Instruction) {
 	switch x := in.(type) {
 	case *ssa.Store:
 		add(vc.storeComps(x.Addr)...)
+		add("escaped")
 	case *ssa.Alloc:
-		add("alloc")
+		add("alloc", "escaped")
 		elem := x.Type().Underlying().(*types.Pointer).Elem()
 		suffix := ""
 		if vc.localAlloc[x] {
@@ -1207,19 +1279,21 @@ func (vc *FuncVC) prescanInstr(li *loopInfo, in ssa.Instruction) {
 		default:
 			add(vc.cellComp(elem, suffix))
 		}
+	case *ssa.MakeClosure:
+		add("escaped")
 	case *ssa.MakeSlice:
-		add("alloc")
+		add("alloc", "escaped")
 		elem := x.Type().Underlying().(*types.Slice).Elem()
 		if !isStruct(elem) {
 			add(vc.elemComp(elem))
 		}
 	case *ssa.MakeMap:
-		add("alloc")
+		add("alloc", "escaped")
 		dc, vn := vc.mapComps(x.Type().Underlying().(*types.Map))
 		add(dc, vn)
 	case *ssa.MapUpdate:
 		dc, vn := vc.mapComps(x.Map.Type().Underlying().(*types.Map))
-		add(dc, vn)
+		add(dc, vn, "escaped")
 	case *ssa.Convert:
 		if vc.sortOf(x.X.Type()) == SStr && vc.sortOf(x.Type()) == SSlice {
 			add("alloc", vc.elemComp(x.Type().Underlying().(*types.Slice).Elem()))
@@ -1239,6 +1313,7 @@ func (vc *FuncVC) prescanInstr(li *loopInfo, in ssa.Instruction) {
 	case *ssa.Defer:
 		li.havoc = true
 	case ssa.CallInstruction:
+		add("escaped")
 		vc.prescanCall(li, x.Common())
 	}
 }
@@ -1610,6 +1685,31 @@ func (vc *FuncVC) scanFnWrites(fn *ssa.Function, set map[string]bool, depth int)
 				}
 				vc.scanFnWrites(callee, set, depth+1)
 			}
+		}
+	}
+}
+
+// preserveContainer: an unescaped slice or map built by this function keeps its
+// elements across an opaque call.
+func (vc *FuncVC) preserveContainer(pre *State, a ssa.Value) {
+	av := vc.vals[a]
+	if av == nil || av.T.S == "" {
+		return
+	}
+	switch u := a.Type().Underlying().(type) {
+	case *types.Slice:
+		if isStruct(u.Elem()) {
+			return
+		}
+		c := vc.elemComp(u.Elem())
+		_, row := arrayParts(vc.comps[c])
+		arr := T(app("s_arr", av.T), SInt)
+		vc.assume(Eq(Select(vc.cur.get(c), arr, row), Select(pre.get(c), arr, row)))
+	case *types.Map:
+		dc, vn := vc.mapComps(u)
+		for _, c := range []string{dc, vn} {
+			_, row := arrayParts(vc.comps[c])
+			vc.assume(Eq(Select(vc.cur.get(c), av.T, row), Select(pre.get(c), av.T, row)))
 		}
 	}
 }
